@@ -220,15 +220,15 @@ def conj(ctx: Ctx, rep: Report) -> None:
     rej = [n for n in gl.nodes if isinstance(n.stmt, ast.Return)
            and norm(n.stmt.value) == 'False']
     old_t = [t for t in gl.nodes if t.kind == 'test' and norm(
-        t.stmt.test) == 'not _is_respecting(old.gate._circuit, '
+        t.stmt.test) == '_is_respecting(old.gate._circuit, '
         'old.location, model)']
     new_t = [t for t in gl.nodes if t.kind == 'test' and norm(
-        t.stmt.test) == 'not _is_respecting(new, old.location, model)']
+        t.stmt.test) == '_is_respecting(new, old.location, model)']
     rep.count()
     rep.check(
         len(old_t) == 1 and bool(rej) and any(
-            gl.edge_dominates(t.id, 'true', rej[0].id)
-            and gl.edge_dominates(old_t[0].id, 'false', t.id)
+            gl.edge_dominates(t.id, 'false', rej[0].id)
+            and gl.edge_dominates(old_t[0].id, 'true', t.id)
             for t in new_t), C, '_less_than_fn_respecting', lt.path,
         lt.lineno,
         'a non-respecting replacement of a respecting block is rejected',
@@ -261,15 +261,22 @@ def pred_specs(ctx: Ctx, rep: Report) -> None:
             n.stmt.value) == 'False']
         rt = [n for n in g.nodes if isinstance(n.stmt, ast.Return) and norm(
             n.stmt.value) == 'True']
-        cont = [n for n in g.nodes if isinstance(n.stmt, ast.Continue)]
         ok = (
             len(lp) == 1 and len(sk) == 1 and len(mem) == 1 and len(rf) == 1
-            and len(rt) == 1 and len(cont) == 1
-            and g.edge_dominates(sk[0].id, 'true', cont[0].id)
+            and len(rt) == 1
             and g.edge_dominates(sk[0].id, 'false', mem[0].id)
             and g.edge_dominates(mem[0].id, 'true', rf[0].id)
             and rt[0].id not in g.in_loop_body(lp[0])
         )
+        if ok:
+            # a skipped gate, and a gate that is a member, go on to the next
+            # gate: within the same iteration they reach no `return`
+            def same_iteration(t, label):
+                return g.reach([b for b, l in g.succ[t.id] if l == label],
+                               blocked={lp[0].id})
+            ok = not ({rf[0].id, rt[0].id} & (
+                same_iteration(sk[0], 'true')
+                | same_iteration(mem[0], 'false')))
         if cls == 'MultiPhysicalPredicate':
             ok = ok and any(
                 isinstance(n.stmt, ast.Assign) and norm(
